@@ -152,7 +152,7 @@ def check_property(pid, tier, only=None, jobs=None, seed=0):
     harness_errors = []
     os.environ['VERIF_TIER'] = tier
     rdir = os.path.join(EVDIR, 'replays')
-    if os.path.isdir(rdir) and not only:
+    if os.path.isdir(rdir) and not only and not os.environ.get('VT_ONLY_FAM'):
         for fn in os.listdir(rdir):
             if fn.startswith(pid + '-'):
                 os.remove(os.path.join(rdir, fn))
@@ -180,6 +180,8 @@ def check_property(pid, tier, only=None, jobs=None, seed=0):
                 elif rp is None:
                     harness_errors.append('known-finding witness %s could not be replayed: %s' % (e['id'], rerr))
             for famv in c.instances(tier):
+                if os.environ.get('VT_ONLY_FAM') and os.environ['VT_ONLY_FAM'] not in repr(famv):
+                    continue
                 ex = [s for s, f in excl if f is None or f == famv or not f]
                 tasks.append((module, c, famv, ex))
     rnd = random.Random(seed)
@@ -347,6 +349,9 @@ def main(argv):
             i += 2
         elif argv[i] == '--only':
             only = argv[i + 1]
+            i += 2
+        elif argv[i] == '--fam':
+            os.environ['VT_ONLY_FAM'] = argv[i + 1]     # development: only instances whose family values contain this text
             i += 2
         elif argv[i] == '--jobs':
             jobs = int(argv[i + 1])
